@@ -13,6 +13,12 @@ CHECKS = {
     "C08": ("Hypothesis-generated (shape, orientation, tilt range, axis) vs float64 tilt-plane rule on physical frequencies; differential between all mask entry points; enumerated axis lengths 1..16 and small-shape grid",
             "Generated-input exploration with an explicit geometric reference (bin-by-bin rule W, k->-k symmetry, realness on odd boxes, zero frequency, no-wedge, dual=union, entry-point agreement, invalid ranges rejected). Per-axis grids 1..16 enumerated.",
             "handedness of the tilt angle calibrated on even cubic boxes (where code and reference agree on every bin); bins within 1e-5 (relative) of a plane are skipped and counted; numpy backend only", "4/C08"),
+    "C11": ("Hypothesis-generated operation sequences on molecule batches vs a float64 scipy-Rotation model; round trips over 24 Euler sequences, quaternion/rotvec/matrix/from_axes; enumerated 24 axis-aligned frames",
+            "Model-based exploration: a generated sequence of rotate/translate calls is applied to Molecules and to an independent rigid-motion model and compared after every step (positions, orientations, copy semantics), plus round-trip, affine-matrix and local-coordinate oracles on the initial and final state. The 24 axis-aligned frames are enumerated for from_axes.",
+            "Euler 'xyz' convention checked only through round trips/self-consistency; linear_transform is not modelled (its semantics are not stated by the property); float32 position storage tolerance 2e-3 per step", "4/C11"),
+    "C12": ("Hypothesis-generated histories of table operations vs a list-of-rows model (uid encoded in position and rotation vector); rejection cases generated",
+            "Model-based (stateful) exploration: histories of <=10 table operations over a pool of tables are replayed on a plain Python row model; every live table is compared with its model after every step; inconsistent inputs must raise the documented exception type and leave the table unchanged.",
+            "polars null semantics assumed for predicates; sort position of nulls, feature column order and dtypes not asserted; all-null columns contributed only by empty inputs may be absent", "4/C12"),
 }
 
 NOT_YET = {}
